@@ -487,7 +487,7 @@ func (b *f19batch) flush() error {
 		if got == "PANIC" {
 			r.Hit("impl-panic")
 			if f19violate(r, Violation{Key: "panic-" + c.F, What: fmt.Sprintf("%s panics: %s", c, truncate(detail, 120)),
-				Broken: "every filter call returns: the model answers Res.panic only inside Slice.overflows (C19_slice_counterexample); a panic anywhere is a violation",
+				Broken: "every filter call returns: the model never answers Res.panic; a panic anywhere is a violation",
 				Replay: map[string]any{"kind": "filter", "case": c.replay(), "text": c.String(), "panic": detail}}) {
 				return nil
 			}
@@ -715,7 +715,7 @@ func f19viaTemplate(e *Env, c f19case, literalArgs bool) error {
 			bad("model says the filter panics, the render gives class "+strconv.Quote(class), nil)
 		} else {
 			f19violate(r, Violation{Key: "panic-" + c.F, What: fmt.Sprintf("{{ %s }} panics", c),
-				Broken: "every filter call returns: the model answers Res.panic only inside Slice.overflows (C19_slice_counterexample); a panic anywhere is a violation",
+				Broken: "every filter call returns: the model never answers Res.panic; a panic anywhere is a violation",
 				Replay: map[string]any{"kind": "filter-template", "case": c.replay(), "text": c.String()}})
 		}
 		return nil
@@ -1110,7 +1110,7 @@ func f19stringCase(e *Env, b *f19batch, s string, tag string) error {
 				viol("length-loop", fmt.Sprintf("%q|length = %s but the for loop runs %d times", s, p[0], len(elems)), "theorem C19_length_items (implementation-only oracle)", nil)
 			}
 			if len(elems) > 0 && utf8.ValidString(s) && (p[2] != elems[0] || p[3] != elems[len(elems)-1]) {
-				viol("first-last-loop", fmt.Sprintf("%q: first=%q last=%q, loop sees %q … %q", s, p[2], p[3], elems[0], elems[len(elems)-1]), "theorem C19_first_items / C19_last_items (implementation-only oracle)", nil)
+				viol("first-last-loop", fmt.Sprintf("%q: first=%q last=%q, loop sees %q … %q", s, p[2], p[3], elems[0], elems[len(elems)-1]), "theorem C19_first_items / C19_last_items_str (implementation-only oracle)", nil)
 			}
 			if len(elems) > 0 && p[2] != elems[0] {
 				viol("first-last-loop", fmt.Sprintf("%q: first=%q, loop starts with %q", s, p[2], elems[0]), "theorem C19_first_items (implementation-only oracle)", nil)
@@ -1254,22 +1254,8 @@ func f19slices(e *Env) error {
 			got = f19canon(res)
 		}
 		if got != want {
-			key := "slice-reference"
-			if class == "PANIC" && length != nil && *length >= 0 {
-				// the recorded class: start + length wraps around (Twig.Slice.overflows)
-				s1 := start
-				if s1 < 0 {
-					s1 += int64(n)
-					if s1 < 0 {
-						s1 = 0
-					}
-				}
-				if s1 < int64(n) && s1 > math.MaxInt64-*length {
-					key = "slice-length-overflow-panic"
-				}
-			}
-			f19violate(r, Violation{Key: key, What: fmt.Sprintf("%s = %s, Twig's index rules give %s %s", c, got, want, truncate(detail, 80)),
-				Broken: "full-strength statement Twig.C19.SliceTotal (filterSlice = Twig's index rules for every start and length); proved: C19_slice_spec_partial, refuted on the model by C19_slice_counterexample (implementation-only oracle)",
+			f19violate(r, Violation{Key: "slice-reference", What: fmt.Sprintf("%s = %s, Twig's index rules give %s %s", c, got, want, truncate(detail, 80)),
+				Broken: "theorem C19_slice_total (filterSlice = Twig's index rules for every 64-bit start and length) no longer describes the code (implementation-only oracle)",
 				Replay: map[string]any{"kind": "filter", "case": c.replay(), "text": c.String(), "impl": got, "reference": want}})
 		}
 		return nil
@@ -1360,7 +1346,7 @@ func f19lists(e *Env) error {
 					viol("reverse-involution", fmt.Sprintf("reverse(reverse(%s)) = %s", v.short(), f19canon(rev2)), "theorem C19_reverse_list_involution (implementation-only oracle)")
 				}
 				if l, _, _ := f19call("length", rev); l != len(v.Items) {
-					viol("reverse-length", fmt.Sprintf("length(reverse(%s)) = %v", v.short(), l), "theorem C19_reverse_list_length (implementation-only oracle)")
+					viol("reverse-length", fmt.Sprintf("length(reverse(%s)) = %v", v.short(), l), "theorem C19_reverse_list_involution (implementation-only oracle)")
 				}
 			} else {
 				viol("reverse-fails", fmt.Sprintf("reverse(%s): %s", v.short(), c1), "theorem C19_reverse_list_involution (implementation-only oracle)")
@@ -1417,7 +1403,7 @@ func f19lists(e *Env) error {
 				if v.K == "list" {
 					last := renderSrc("{{ v|last }}", map[string]any{"v": gv})
 					if len(elems) > 0 && (last.Class != "" || last.Out != elems[len(elems)-1]) {
-						viol("first-last-loop", fmt.Sprintf("%s|last = %q, the loop ends with %q", v.short(), last.Out, elems[len(elems)-1]), "theorem C19_last_items (implementation-only oracle)")
+						viol("first-last-loop", fmt.Sprintf("%s|last = %q, the loop ends with %q", v.short(), last.Out, elems[len(elems)-1]), "theorem C19_last_items_list (implementation-only oracle)")
 					}
 				}
 			}
@@ -1557,19 +1543,27 @@ func f19joinSplit(e *Env) error {
 			}
 		}
 	}
-	// the two recorded exceptions are replayed so that a change of behaviour is noticed
-	back, _, _ := f19call("split", "a b, c", ", ")
-	if f19canon(back) != "list:str:false[str:"+hx("a")+",str:"+hx("b")+",str:,str:"+hx("c")+"]" {
-		r.Note("split with a multi-character separator no longer splits at every character of it: " + f19canon(back) + " (C19_split_join_counterexample_multichar is stale)")
+	// the two recorded exceptions of the round trip (known findings): one violation each, every run,
+	// as long as the code behaves this way
+	jm, _, _ := f19call("join", []interface{}{"a b", "c"}, ", ")
+	back, _, _ := f19call("split", jm, ", ")
+	if f19canon(back) != "list:str:false[str:"+hx("a b")+",str:"+hx("c")+"]" {
+		c := f19case{F: "split", V: f19str("a b, c"), Args: []f19v{f19str(", ")}}
+		f19violate(r, Violation{Key: "split-multichar-separator", What: fmt.Sprintf("['a b','c']|join(', ')|split(', ') = %s: a separator of several characters splits at each of them", f19canon(back)),
+			Broken: "full-strength statement Twig.C19.SplitJoinTotal; proved: C19_split_join (one-byte separator), refuted on the model by C19_split_join_counterexample_multichar (implementation-only oracle)",
+			Replay: map[string]any{"kind": "filter", "case": c.replay(), "text": c.String(), "impl": f19canon(back)}})
 	} else {
-		r.Hit("known:split-multichar-replayed")
+		r.Note("split with a multi-character separator now round-trips: C19_split_join_counterexample_multichar and the known finding split-multichar-separator are stale")
 	}
 	j, _, _ := f19call("join", []interface{}{}, ",")
 	back, _, _ = f19call("split", j, ",")
-	if f19canon(back) != "list:str:false[str:]" {
-		r.Note("split(join([])) changed: " + f19canon(back) + " (C19_split_join_counterexample_empty is stale)")
+	if f19canon(back) != "list:any:false[]" && f19canon(back) != "list:str:false[]" {
+		c := f19case{F: "join", V: f19list("any", false), Args: []f19v{f19str(",")}}
+		f19violate(r, Violation{Key: "split-of-empty-join", What: fmt.Sprintf("[]|join(',')|split(',') = %s, not the empty list", f19canon(back)),
+			Broken: "full-strength statement Twig.C19.SplitJoinTotal; proved: C19_split_join (non-empty list), refuted on the model by C19_split_join_counterexample_empty (implementation-only oracle)",
+			Replay: map[string]any{"kind": "filter", "case": c.replay(), "text": c.String(), "impl": f19canon(back)}})
 	} else {
-		r.Hit("known:join-empty-list-replayed")
+		r.Note("[]|join|split now gives the empty list: C19_split_join_counterexample_empty and the known finding split-of-empty-join are stale")
 	}
 	return b.flush()
 }
@@ -1814,14 +1808,8 @@ func f19numbers(e *Env) error {
 			got := f19goToString(res)
 			r.Hit("round-exact-checked")
 			if class != "" || got != wantRound {
-				key := "round-decimal"
-				if got == "-0" {
-					key = "negative-zero"
-				} else if f19isTie(x, p) {
-					key = "round-decimal-tie"
-				}
-				if f19violate(r, Violation{Key: key, What: fmt.Sprintf("%s = %s, exact decimal arithmetic gives %s", cr, got, wantRound),
-					Broken: "full-strength statement Twig.C19.RoundExact (round = exact decimal arithmetic); proved: C19_round_exact_partial, refuted on the model by C19_round_counterexample / C19_negative_zero_counterexample (implementation-only oracle)",
+				if f19violate(r, Violation{Key: "round-decimal", What: fmt.Sprintf("%s = %s, exact decimal arithmetic gives %s", cr, got, wantRound),
+					Broken: "theorem C19_round_exact (round = exact decimal arithmetic, ties away from zero) no longer describes the code (implementation-only oracle)",
 					Replay: map[string]any{"kind": "filter", "case": cr.replay(), "text": cr.String(), "impl": got, "reference": wantRound}}) {
 					return nil
 				}
@@ -1834,12 +1822,19 @@ func f19numbers(e *Env) error {
 				}
 				s1, i1, f1 := f19fixed(q, p)
 				want := f19trimDec(s1, i1, f1)
+				if q.Sign() == 0 {
+					want = "0"
+				}
+				cm := f19case{F: "round", V: v, Args: []f19v{f19int(int64(p)), f19str(meth)}, Tag: tag}
+				if err := b.add(cm); err != nil {
+					return err
+				}
 				res, class, _ := f19call("round", v.goVal(), p, meth)
 				got := f19goToString(res)
 				r.Hit("round-ceil-floor-checked")
-				if class != "" || (got != want && !(got == "-0" && want == "0")) {
+				if class != "" || got != want {
 					f19violate(r, Violation{Key: "round-" + meth + "-decimal", What: fmt.Sprintf("%s|round(%d, '%s') = %s, exact decimal arithmetic gives %s", v.short(), p, meth, got, want),
-						Broken: "round with method ceil/floor agrees with exact decimal arithmetic (not modelled; implementation-only oracle)",
+						Broken: "theorem C19_round_mode_exact (round with method ceil/floor = exact decimal arithmetic) no longer describes the code (implementation-only oracle)",
 						Replay: map[string]any{"kind": "round-method", "v": v.model(), "precision": p, "method": meth, "impl": got, "reference": want}})
 				}
 			}
@@ -1860,13 +1855,13 @@ func f19numbers(e *Env) error {
 			r.Hit("number-format-exact-checked")
 			if class != "" || got != wantNF {
 				key := "number-format-decimal"
-				if strings.HasPrefix(got, "-") && n.Sign() == 0 {
-					key = "negative-zero"
-				} else if f19isTie(x, p) {
-					key = "number-format-decimal-tie"
+				if f19isTie(x, p) {
+					key = "number-format-decimal-tie" // known finding: %.nf rounds the binary value
+				} else if strings.HasPrefix(got, "-") && n.Sign() == 0 {
+					key = "number-format-negative-zero"
 				}
 				if f19violate(r, Violation{Key: key, What: fmt.Sprintf("%s = %s, exact decimal arithmetic gives %s", cn, got, wantNF),
-					Broken: "full-strength statement Twig.C19.NumberFormatExact (number_format = exact decimal arithmetic); proved: C19_number_format_exact_partial, refuted on the model by C19_number_format_counterexample / C19_negative_zero_counterexample (implementation-only oracle)",
+					Broken: "full-strength statement Twig.C19.NumberFormatExact (number_format = exact decimal arithmetic); proved: C19_number_format_exact_partial, refuted on the model by C19_number_format_counterexample (implementation-only oracle)",
 					Replay: map[string]any{"kind": "filter", "case": cn.replay(), "text": cn.String(), "impl": got, "reference": wantNF}}) {
 					return nil
 				}
@@ -1954,8 +1949,8 @@ func f19numbers(e *Env) error {
 			for i, x := range resp["res"].([]any) {
 				m := x.(map[string]any)
 				r.Hit("numpipe-checked")
-				if m["round"] != m["round_pipe"] || m["fixed"] != m["fixed_pipe"] {
-					f19violate(r, Violation{Key: "model-numpipe", What: fmt.Sprintf("model: exact-off-ties evaluation and binary64 pipeline differ on %s: %v", pipeText[off+i], m),
+				if m["round"] != m["spec"] || m["fixed"] != m["fixed_pipe"] {
+					f19violate(r, Violation{Key: "model-numpipe", What: fmt.Sprintf("model: digit-string round vs spec, or exact-off-ties %%.nf vs binary64 pipeline, differ on %s: %v", pipeText[off+i], m),
 						Broken: "modelling assumption of TwigModel.Filters.Num (binary evaluation cannot cross a rounding boundary away from ties)", Replay: map[string]any{"kind": "numpipe", "case": pipe[off+i], "model": m}})
 				}
 			}
